@@ -24,11 +24,17 @@ class U:
         self.lits = [G.literal(rng, ty, newline=False) for ty in decl.args]
         self.entry = f"{decl.id}({','.join(l[1][1] for l in self.lits)})"
         self.absolute = not decl.cmd.startswith('*')
+        # which optional parts are left out: the same choice in the base rendering and in every variant
+        self.omit = [opt and rng.random() < 0.5 for (opt, _p) in self.parts]
+        if all(self.omit):
+            self.omit[-1] = False
 
     def render(self, rng, mode, wsb=None):
         """mode: 'base' (long forms, upper case, minimal white space) or 'var'"""
         mn = []
-        for opt, p in self.parts:
+        for k, (opt, p) in enumerate(self.parts):
+            if self.omit[k]:
+                continue
             if mode == 'base':
                 s = p.upper()
             else:
